@@ -348,7 +348,7 @@ def run(rep, tier, seed, replay):
         rep.exhaustive = True
         rep.extra["enumerated_sources"] = len(sources)
         # ---- 3. seeded deeper sources + probes
-        nrand = 2500 if quick else 60000
+        nrand = 6000 if quick else 60000
         for n, s in enumerate(random_sources(rng, nrand, 8 if quick else 10) + random_sources(rng, nrand // 2, 14)):
             sources.append(("r%d" % n, s, None))
         for n, s in enumerate(probes()):
